@@ -293,7 +293,13 @@ func (w *world) wantLongest(s snap) []string {
 		}
 	}
 	sort.Strings(out)
-	return out
+	ded := out[:0]
+	for i, x := range out {
+		if i == 0 || x != out[i-1] {
+			ded = append(ded, x)
+		}
+	}
+	return ded
 }
 
 func (w *world) capBound(name string) int {
